@@ -15,7 +15,8 @@ static vh_key_t okey;
 static jwk_set_t *oset;
 static const jwk_item_t *oitem;
 
-static const int64_t NOWS[] = { 0, 1, 2147483647LL, 2147483648LL, 4294967296LL, 1700000000LL, 1099511627776LL };
+static const int64_t NOWS[] = { 0, 1, 2147483647LL, 2147483648LL, 4294967296LL, 1700000000LL, 1099511627776LL, -1, -2 };	/* -1 is also time()'s error value; still a clock reading */
+#define NNOWS 9
 static const int64_t LEEWAYS[] = { -1, 0, 1, 59, 2147483648LL, 1099511627776LL, -2, -100 };
 static const char *TYPEVALS[] = { "\"123\"", "1.0", "1e3", "true", "false", "null", "[]", "{}", "[1]", "1.5", "-0.0", "\"\"" };
 #define NTYPEVALS 12
@@ -26,7 +27,7 @@ static const char *STRS[] = { "a", "ab", "A", "", "\xc3\xa9", "e\xcc\x81", "issu
 static const char *ODD_ACTUAL[] = { "1", "[\"a\"]", "{\"a\":1}", "true", "null", "\"a\\u0000b\"", "\"a\\u0000\"", "[]", "0", "1.5" };
 #define NODD 10
 
-static int64_t pick_now(void) { return vh_below(&rng, 8) == 7 ? (int64_t)vh_below(&rng, 1ULL << 41) : NOWS[vh_below(&rng, 7)]; }
+static int64_t pick_now(void) { return vh_below(&rng, 10) == 9 ? (int64_t)vh_below(&rng, 1ULL << 41) : NOWS[vh_below(&rng, NNOWS)]; }
 static int64_t pick_leeway(void) { return vh_below(&rng, 9) == 8 ? (int64_t)vh_below(&rng, 1ULL << 40) : LEEWAYS[vh_below(&rng, 8)]; }
 
 static char *mk_token(const char *payload, int is_signed)
@@ -246,7 +247,7 @@ int main(int argc, char **argv)
 	if (!oitem) vh_harness_fail("keyload");
 
 	for (int s = 0; s < 2; s++)
-	for (int ni = 0; ni < 7; ni++)
+	for (int ni = 0; ni < NNOWS; ni++)
 	for (int li = 0; li < 8; li++, hist++) {
 		if (!vh_mine(&a, hist)) continue;
 		vh_rng_seed(&rng, a.seed, 100000 + (uint64_t)hist);
